@@ -207,24 +207,41 @@ theorem getD_resizeBoth_fst (st : Nat) (p : List (List Nat) × List (List Nat)) 
 theorem getD_resizeBoth_snd (st : Nat) (p : List (List Nat) × List (List Nat)) (q : Nat) (h : p.2.length ≤ st) :
     (resizeBoth st p).2.getD q [] = p.2.getD q [] := getD_resizeL _ _ _ _ h
 
-/-- `init()` summarised: the data entries are resized to `states_`, set `r` went through `init(a, |pre(a)[r]|)` for all
-labels in increasing order -/
+/-- the loops of `init()` summarised: the data entries are resized to `states_`, set `r` went through
+`init(a, |pre(a)[r]|)` for all labels in increasing order, starting from `bw0[r]` -/
+theorem initWith_spec (c : LtsC) (bw0 : List SSet) (hbw : bw0.length = c.states)
+    (hl : ∀ a, ((c.data.getD a ([], [])).2).length ≤ c.states) :
+    (initWith c bw0).states = c.states ∧ (initWith c bw0).transitions = c.transitions ∧
+    (initWith c bw0).data.length = c.data.length ∧
+    (∀ a, (initWith c bw0).data.getD a ([], []) =
+      if a < c.data.length then resizeBoth c.states (c.data.getD a ([], [])) else c.data.getD a ([], [])) ∧
+    (initWith c bw0).bw.length = c.states ∧
+    (∀ r, r < c.states → (initWith c bw0).bw.getD r default = initSet c.data r (bw0.getD r default) c.data.length) ∧
+    (initWith c bw0).ub = (c.ub || (initWith c bw0).bw.any (·.bad)) := by
+  have := initLabel_fold c.states c.data bw0 hbw hl c.data.length (Nat.le_refl _)
+  simp only at this
+  obtain ⟨i1, i2, i3, i4⟩ := this
+  refine ⟨rfl, rfl, i1, i2, i3, fun r hr => ?_, rfl⟩
+  have := i4 r
+  rw [if_pos hr] at this
+  exact this
+
+theorem getD_replicate {α : Type} (d d' : α) (n i : Nat) (h : i < n) : (List.replicate n d).getD i d' = d := by
+  simp [List.getD_eq_getElem?_getD, h]
+
+/-- the repaired `init()` summarised: every set starts as the empty set with the range of the current labels -/
 theorem init_spec (c : LtsC) (hl : ∀ a, ((c.data.getD a ([], [])).2).length ≤ c.states) :
     (init c).states = c.states ∧ (init c).transitions = c.transitions ∧
     (init c).data.length = c.data.length ∧
     (∀ a, (init c).data.getD a ([], []) =
       if a < c.data.length then resizeBoth c.states (c.data.getD a ([], [])) else c.data.getD a ([], [])) ∧
     (init c).bw.length = c.states ∧
-    (∀ r, r < c.states → (init c).bw.getD r default =
-      initSet c.data r ((resizeL (SSet.new c.data.length) c.bw c.states).getD r default) c.data.length) ∧
+    (∀ r, r < c.states → (init c).bw.getD r default = initSet c.data r (SSet.new c.data.length) c.data.length) ∧
     (init c).ub = (c.ub || (init c).bw.any (·.bad)) := by
-  have := initLabel_fold c.states c.data (resizeL (SSet.new c.data.length) c.bw c.states) (length_resizeL _ _ _) hl
-    c.data.length (Nat.le_refl _)
-  simp only at this
-  obtain ⟨i1, i2, i3, i4⟩ := this
-  refine ⟨rfl, rfl, i1, i2, i3, fun r hr => ?_, rfl⟩
-  have := i4 r
-  rw [if_pos hr] at this
+  have h := initWith_spec c (List.replicate c.states (SSet.new c.data.length)) List.length_replicate hl
+  refine ⟨h.1, h.2.1, h.2.2.1, h.2.2.2.1, h.2.2.2.2.1, fun r hr => ?_, h.2.2.2.2.2.2⟩
+  have := h.2.2.2.2.2.1 r hr
+  rw [getD_replicate _ _ _ _ hr] at this
   exact this
 
 end Vata.LC
